@@ -74,6 +74,15 @@ MANIFEST = {
 }
 
 ALPHABET = b"ABCDEFGHIJKLMNOPQRSTUVWXYZabcdefghijklmnopqrstuvwxyz0123456789+/"
+
+
+def fail(ctx: Any, case: Any, key: str, what: str) -> None:
+    """ctx.fail, at most 3 times per key (one class of failing input must not crowd out the others)."""
+    n = ctx.notes.setdefault("failure_counts_by_key", {})
+    n[key] = n.get(key, 0) + 1
+    if n[key] <= 3:
+        ctx.fail(case, key, what)
+
 MAIN_KEY = b"k" * 32
 T0 = 1_700_000_000
 TTL = 50
@@ -109,10 +118,12 @@ IDENTS: list[tuple[Any, ...] | None] = [
 class Env:
     """Service, workers (by key), minted streams — rebuilt from case descriptors, cached during a run."""
 
-    def __init__(self, ttl: int = TTL) -> None:
+    def __init__(self, ttl: int = TTL, service: list[dict[str, Any]] | None = None) -> None:
         self.ttl = ttl
         self.patches = T.Patches(float(T0))
-        self.server = T.make_service(SERVICE)
+        self.service = service if service is not None else SERVICE
+        self.kind = {m["name"]: m["kind"] for m in self.service}
+        self.server = T.make_service(self.service)
         self.workers: dict[tuple[bytes, str], T.Worker] = {}
         self.streams: dict[str, dict[str, Any]] = {}
         self.bodies: dict[bytes, list[str]] = {}
@@ -123,7 +134,7 @@ class Env:
     def worker(self, key: bytes, kind: str) -> T.Worker:
         k = (key, kind)
         if k not in self.workers:
-            self.workers[k] = T.Worker(self.server, key, self.ttl, cache_entries=4096 if kind == "warm" else 0)
+            self.workers[k] = T.Worker(self.server, key, self.ttl, cache_entries=0 if kind == "cold" else 4096)
         return self.workers[k]
 
     def mint(self, spec: dict[str, Any]) -> dict[str, Any]:
@@ -141,7 +152,7 @@ class Env:
             raise RuntimeError(f"init failed: {r.status_code} {T.error_message(r)}")
         cursors = [cur]
         for _ in range(spec.get("turns", 0)):
-            r = w.exchange(spec["method"], cursors[-1], call, ident, kind=KIND[spec["method"]])
+            r = w.exchange(spec["method"], cursors[-1], call, ident, kind=self.kind[spec["method"]])
             c2, _ = T.tokens_of(r)
             if r.status_code != 200 or c2 is None:
                 raise RuntimeError(f"turn failed: {r.status_code} {T.error_message(r)}")
@@ -319,6 +330,16 @@ def mutation_list(ctx: Any, tok: bytes, full: bool) -> list[dict[str, Any]]:
 # ------------------------------------------------------------------------------------------ one case
 
 
+def _same_envelope(a: bytes | None, b: bytes | None) -> bool:
+    """Both texts base64-decode (validate=True) to the same envelope bytes."""
+    if a is None or b is None:
+        return a is b
+    try:
+        return base64.b64decode(a, validate=True) == base64.b64decode(b, validate=True)
+    except Exception:
+        return False
+
+
 def message_class(resp: Any) -> str:
     if resp.status_code == 200:
         return "ok" if resp.headers.get("x-vgi-rpc-error") is None else "in-band-error"
@@ -393,7 +414,7 @@ def run_case(ctx: Any, env: Env, case: dict[str, Any], uniform: dict[str, Any], 
         ent = w.app._call_state_cache._entries.get((matched["cid"], key_ident))
         live_hit = ent is not None and ent[0] > now
 
-    resp = w.exchange(method, cursor, call, ident, kind=KIND[method], cancel=cancel)
+    resp = w.exchange(method, cursor, call, ident, kind=env.kind[method], cancel=cancel)
     hooks = T.hook_calls()
     log = list(T.LOG)
     cls = message_class(resp)
@@ -422,39 +443,40 @@ def run_case(ctx: Any, env: Env, case: dict[str, Any], uniform: dict[str, Any], 
     mkey = mut.get("how") or mut.get("op")
     if want_served:
         if cls != "ok":
-            ctx.fail(case, f"C12:genuine-rejected:{present['worker']}:{cls}", f"a genuine unexpired token pair was refused: {cls} {T.error_message(resp)}")
+            fail(ctx, case, f"C12:genuine-rejected:{present['worker']}:{cls}", f"a genuine unexpired token pair was refused: {cls} {T.error_message(resp)}")
     else:
         if cls in ("ok", "in-band-error", "decode_error") or resp.status_code != 400:
             if cur_ok and matched is not None and method != matched["spec"]["method"]:
                 key = f"C12:cross-method-served:{cls}"  # C13's subject; reported here only if it shows up
-            elif mut.get("how") == "trailing_bits":
-                key = f"C12:noncanonical-base64-accepted:{tgt}"
+            elif _same_envelope(cursor, cur0) and _same_envelope(call, call0) and (cursor != cur0 or call != call0):
+                key = f"C12:noncanonical-base64-accepted:{'cursor' if cursor != cur0 else 'call'}"
             else:
                 key = f"C12:forged-accepted:{tgt}:{mkey}:{cls}"
-            ctx.fail(case, key, f"a text that is not a minted token for this key/identity/clock was not rejected with 400: status {resp.status_code} {cls}; hooks {hooks[:3]}")
+            fail(ctx, case, key, f"a text that is not a minted token for this key/identity/clock was not rejected with 400: status {resp.status_code} {cls}; hooks {hooks[:3]}")
         else:
             if hooks:
-                ctx.fail(case, f"C12:hook-before-rejection:{hooks[0][0]}", f"rejected with {resp.status_code} but {hooks[:4]} ran first")
+                fail(ctx, case, f"C12:hook-before-rejection:{hooks[0][0]}", f"rejected with {resp.status_code} but {hooks[:4]} ran first")
             if cls == "reject":
                 body = T.canon_error(resp)
                 if "body" not in uniform:
                     uniform["body"] = body
                     uniform["case"] = case
                 elif body != uniform["body"]:
-                    ctx.fail(case, f"C12:distinguishable-rejection:{mkey}",
+                    slug = "-".join((T.error_message(resp) or "").lower().replace(":", " ").split())[:60]
+                    fail(ctx, case, f"C12:distinguishable-rejection:{slug}",
                              f"rejection body differs from another token rejection: {T.error_message(resp)!r} vs {uniform['body']}")
             elif cls == "missing_call":
                 if call is not None:
-                    ctx.fail(case, "C12:missing-call-message-for-present-token", "a present call token was answered 'Missing call token'")
+                    fail(ctx, case, "C12:missing-call-message-for-present-token", "a present call token was answered 'Missing call token'")
             elif cls == "missing_cursor":
                 if cursor is not None:
-                    ctx.fail(case, "C12:missing-cursor-message-for-present-token", "a present cursor was answered 'Missing state token'")
+                    fail(ctx, case, "C12:missing-cursor-message-for-present-token", "a present cursor was answered 'Missing state token'")
     # opaqueness on everything presented or minted here
     for tok in (cur0, call0):
         raw = base64.b64decode(tok)
         for marker in (b"PLAINTEXT-MARKER", b"CALLSTATE-SECRET", spec["method"].encode() + b"-"):
             if marker in raw or marker in tok:
-                ctx.fail(case, "C12:plaintext-visible-in-token", f"{marker!r} visible in token bytes")
+                fail(ctx, case, "C12:plaintext-visible-in-token", f"{marker!r} visible in token bytes")
 
     # ---- K ----------------------------------------------------------------------------------------------------------
     if model_req is not None:
@@ -543,17 +565,14 @@ def k_identity(ctx: Any) -> None:
         k = T.ident_key(idt)
         if k is not None and "\x00" in k[0]:
             continue
-        for table, val in ((seen, a), (seen_call, (methods[i % len(methods)].encode() + b"|" + c))):
-            pass
         if a in seen and seen[a] != k:
-            ctx.fail(case, "C12:aad-collision", f"identities {seen[a]!r} and {k!r} share cursor AAD {a!r}")
+            fail(ctx, case, "C12:aad-collision", f"identities {seen[a]!r} and {k!r} share cursor AAD {a!r}")
         seen[a] = k
-        kc = (methods[i % len(methods)], k)
-        if c in seen_call and seen_call[c] != kc:
-            ctx.fail(case, "C12:call-aad-collision", f"{seen_call[c]!r} and {kc!r} share call AAD {c!r}")
-        seen_call[c] = kc
+        if c in seen_call and seen_call[c] != k:
+            fail(ctx, case, "C12:call-aad-collision", f"identities {seen_call[c]!r} and {k!r} share call AAD {c!r}")
+        seen_call[c] = k
     if set(seen) & set(seen_call):
-        ctx.fail({"kind": "aad-kinds"}, "C12:aad-kinds-collide", "a cursor AAD equals a call AAD")
+        fail(ctx, {"kind": "aad-kinds"}, "C12:aad-kinds-collide", "a cursor AAD equals a call AAD")
 
 
 def k_framing(ctx: Any) -> None:
@@ -682,7 +701,7 @@ def k_framing(ctx: Any) -> None:
             cls = "ok" if isinstance(impl, dict) else impl
             ctx.case(case, nontrivial=True, tags=(f"k:{what}", f"frame:{cls}"))
             if isinstance(impl, str) and impl.startswith("crash"):
-                ctx.fail(case, f"C12:opener-raised:{impl}", f"{what} let {impl} escape on an authentic payload")
+                fail(ctx, case, f"C12:opener-raised:{impl}", f"{what} let {impl} escape on an authentic payload")
             if m is not None:
                 mm = m if not (isinstance(m, dict) and "reject" in m) else "reject"
                 if mm != impl:
@@ -731,7 +750,7 @@ def k_base64(ctx: Any) -> None:
                 ctx.mismatch(case, res[len(texts) + i], s, "_decode_token: model vs implementation")
         # O: the opener's decode accepts exactly one spelling per envelope
         if strict_fn is not None and s is not None and base64.b64encode(bytes.fromhex(s)) != t:
-            ctx.fail(case, "C12:noncanonical-base64-accepted:decode", f"_decode_token accepted the non-canonical text {t!r}")
+            fail(ctx, case, "C12:noncanonical-base64-accepted:decode", f"_decode_token accepted the non-canonical text {t!r}")
 
 
 def k_response(ctx: Any, uniform: dict[str, Any]) -> None:
